@@ -250,7 +250,8 @@ def gen_case(rng, sites=None, exc_i=None, garbage=None):
         t["plan"] = {"ops": [{"kind": "Speak"}, {"kind": "EditGraph"}], "deltas": [["node", f"n:{rng.choice('abcd')}", "weight", rng.choice([0.1, -0.2, 0.3]), 1] for _ in range(rng.randint(1, 3))],
                      "reflection": True}
     return {"world": world, "cfg": cfg, "turns": turns, "sites": list(sites), "exc": exc_i if exc_i is not None else rng.randrange(len(EXCS)),
-            "garbage": (garbage[0] if garbage else rng.choice(GARBAGE)), "garbage_name": (garbage[1] if garbage else None), "seed": rng.randint(0, 10 ** 9), "t3_deny": t3_deny}
+            "garbage": (garbage[0] if garbage else rng.choice(GARBAGE)), "garbage_name": (garbage[1] if garbage else None), "seed": rng.randint(0, 10 ** 9), "t3_deny": t3_deny,
+            "exc_msg": rng.choice(["text", "text", "empty", "noargs", "multiline", "non-str"])}
 
 
 @contextlib.contextmanager
@@ -285,7 +286,19 @@ def run(case, faulted, sess):
         env = TurnEnv(cfg, world, boot_loaded=not boot)
     except Exception as ex:
         return {"rejected": str(ex)[:150]}
-    exc = EXCS[case["exc"]]
+    exc_type = EXCS[case["exc"]]
+    style = case.get("exc_msg", "text")
+
+    def exc(msg):  # the shape of the exception's arguments is part of "all exception types raised there"
+        if style == "empty":
+            return exc_type("")
+        if style == "noargs":
+            return exc_type()
+        if style == "multiline":
+            return exc_type("first line\nsecond line\n" + "x" * 500)
+        if style == "non-str":
+            return exc_type(7, {"code": 1})
+        return exc_type(msg)
     hits = {}
     with env:
         if boot:
